@@ -34,6 +34,30 @@ func VP_C10_text() {
 		{"[min, x.min, len]", []string{"min", "x.min", "len"}, []string{"min", "x.min", "len"}},
 		{"max(max, left.right)", []string{"max", "left.right"}, []string{"max", "left.right"}},
 	}
+	// a long formula: a 200-term sum (the leftmost operands sit deepest in the tree) and a deep parenthesis nest
+	{
+		var names []string
+		text := ""
+		for i := 0; i < 200; i++ {
+			n := "f" + string([]byte{byte('0' + i/100), byte('0' + i/10%10), byte('0' + i%10)})
+			names = append(names, n)
+			if i > 0 {
+				text += " + "
+			}
+			text += n
+		}
+		pool = append(pool, struct {
+			text string
+			want []string
+			nl   []string
+		}{text, names, names})
+		deep := string(vpRepeat("", "(", "deep.est"+string(vpRepeat("", ")", "", 150)), 150)) + " + shallow"
+		pool = append(pool, struct {
+			text string
+			want []string
+			nl   []string
+		}{deep, []string{"deep.est", "shallow"}, []string{"deep.est", "shallow"}})
+	}
 	p := pool[vpChoice("f", len(pool))]
 	code, err := ParseSourceCode([]byte(p.text))
 	vpAssert("C10/text/parses", err == nil)
